@@ -1,23 +1,30 @@
 CHECK = {
     "level": "exploration",
-    "rule": ("E4 over object trees (problems/solid_programs.hh): every leaf solid (box, sphere, "
-             "cylinder, cone, ellipsoid, prism 3/4/5/6, trd/trap/5-gon/twisted/pyramidal GenPrism, "
-             "parallelepiped, infinite wedge, hollow and sliced Solids, 2-segment polycones and "
-             "polyprisms; 50 leaves) x 10 transforms (none, translation, quarter turns about x/y/z with "
-             "and without translation, reflection, generic rotation+translation, sub-tolerance rotation) x {plain, negated} x 5 placements (global "
-             "unit with implicit box boundary+background, explicit box boundary with the "
-             "complement as a material, sphere boundary+background; daughter unit with explicit "
-             "or implicit boundary placed under each transform); all ordered leaf pairs x "
-             "{union, intersection, subtraction} x transform of the second operand (incl. a "
-             "sub-tolerance shift); the partition {A&B, A-B, B-A} of every pair in one unit; "
-             "thorough: all 8 operand transforms, daughter placement of pairs, depth-3 trees over "
-             "12 leaves.  Each program is built by UnitProto -> InputBuilder -> OrangeParams and "
-             "probed on a 9^3 lattice + the same lattice shifted by irrational fractions of the "
-             "spacing; the reported volume label must equal the one that follows from the "
-             "analytic definitions (oracle/solids.hh) for every point farther than "
-             "10*tol.rel*max(1,L) from every constituent surface.  non-trivial = a program whose "
-             "compared probes fall into >= 2 different expected regions besides 'outside'. "
-             "Values between lattice points and other parameter values are not covered."),
+    "rule": ("E4 over object trees (problems/solid_programs.hh). Leaves (50): box, sphere, cylinder, "
+             "cone (truncated, pointed, nearly cylindrical), ellipsoid (generic, two equal radii, "
+             "sphere-like), prism 3/4/5/6 sides, GenPrism (trd, trap, clockwise 5-gon, twisted, "
+             "pyramid / roof / inverted pyramid), parallelepiped (4 angle sets), infinite wedge, "
+             "hollow and sliced Solids (angle <, =, > half turn, negative start), polycones "
+             "(2 segments, hollow, sliced, stacked with zero-height segment, pointed, or_solid "
+             "single-segment), polyprisms.  Programs: u = leaf x 10 transforms (none, translation, "
+             "quarter turns about x/y/z with and without translation, reflection, generic "
+             "rotation+translation, sub-tolerance rotation) x {plain, negated} x 5 placements "
+             "(global unit: implicit box boundary + background / explicit box boundary with the "
+             "complement as a material / sphere boundary + background; daughter unit with explicit "
+             "or implicit boundary placed under 7 transforms);  b = all ordered leaf pairs x "
+             "{union, intersection, subtraction} x transform of the 2nd operand;  c = two "
+             "differently placed copies of a leaf x 3 operations;  n = near-coincident copies "
+             "(sub-tolerance translation / rotation nested inside each transform) x 3 operations;  "
+             "p = partition {A&B, A-B, B-A} of a pair as three materials of one unit;  t (thorough) "
+             "= depth-3 trees over 12 leaves.  Each program is built by UnitProto -> InputBuilder "
+             "-> OrangeParams and probed on a 9^3 lattice over the world box (x1.08) + a 9^3 "
+             "lattice over the box around the materials shifted by irrational fractions of its "
+             "spacing; the volume label reported by OrangeTrackView initialisation must equal the "
+             "one that follows from the analytic definitions (oracle/solids.hh) for every point "
+             "farther than 10*tol.rel*max(1,L) from every constituent surface.  evaluations = "
+             "compared probe points; non-trivial = a program whose compared probes fall into >= 2 "
+             "different expected regions besides 'outside'.  Parameter values other than the "
+             "enumerated ones and points between lattice points are not covered."),
     "assumptions": [
         "host build, ORANGE geometry, double precision, default construction tolerance 1.5e-8",
         "oracle = documented definitions of IntersectRegion.hh / Solid.hh / PolySolid.hh / "
@@ -30,10 +37,14 @@ CHECK = {
         "Involute is out of scope (no closed-form oracle); GenPrism::from_trap only with equal "
         "x half-lengths per face (its hx_lo/hx_hi comment is ambiguous)",
     ],
-    "bounds": {"quick": {"probes_per_program": 1458, "binary_operand_transforms": "tr, gen, tiny, (a+b)%6",
-                         "daughter_transforms_unary": "alternating half of 7", "depth": 2},
-               "thorough": {"probes_per_program": 1458, "binary_operand_transforms": 8,
-                            "daughter_transforms_unary": 7, "depth": 3, "depth3_leaves": 12}},
+    "bounds": {"quick": {"leaves": 50, "probes_per_program": 1458, "depth": 2,
+                         "unary_daughter_transforms": "alternating half of 7",
+                         "binary_operand_transforms": "tr, gen, (a+b)%10 of 11",
+                         "copies_transform_pairs": 5, "partition_operand_transforms": 1},
+               "thorough": {"leaves": 50, "probes_per_program": 1458, "depth": 3, "depth3_leaves": 12,
+                            "unary_daughter_transforms": 7, "binary_operand_transforms": 11,
+                            "copies_transform_pairs": 72, "partition_operand_transforms": 10,
+                            "binary_placements": "implicit world / explicit daughter alternating"}},
     "parts": [
         {"name": "solids", "harness": "c09_solids", "flavour": "rel",
          "env": {"CELER_LOG_LOCAL": "critical"},
